@@ -540,10 +540,19 @@ def _run_bgcounts(case, ck):
     nx, ny = case["nx"], case["ny"]
     i, j = np.mgrid[0:nx, 0:ny]
     acc = []
-    for dt in ("uint8", "uint16", "int16", "int16-wide", "int8-wide"):
-        rawv = (10 + (7 * i + 3 * j) % 23).astype(dt.split("-")[0])
-        bgv = (100 + (5 * i + j) % 50).astype(dt.split("-")[0])
-        dkv = (12 + (i + 2 * j) % 9).astype(dt.split("-")[0])
+    for dt in ("uint8", "uint16", "int16", "int16-wide", "int8-wide",
+               # frames of different types (an averaged raw frame with raw
+               # counts as background and dark frame, ...)
+               "mixed:float64,uint16,uint16", "mixed:float32,uint8,uint8",
+               "mixed:uint16,float64,uint16", "mixed:uint8,uint8,float64",
+               "mixed:float64,uint8,int16"):
+        if dt.startswith("mixed:"):
+            t_raw, t_bg, t_dk = dt[6:].split(",")
+        else:
+            t_raw = t_bg = t_dk = dt.split("-")[0]
+        rawv = (10 + (7 * i + 3 * j) % 23).astype(t_raw)
+        bgv = (100 + (5 * i + j) % 50).astype(t_bg)
+        dkv = (12 + (i + 2 * j) % 9).astype(t_dk)
         if dt == "int16-wide":
             # signed counts whose differences do not fit the type
             rawv = (rawv * 600).astype("int16")            # 6000..19200
@@ -556,9 +565,15 @@ def _run_bgcounts(case, ck):
         # one interior pixel where the background frame is darker than the
         # dark frame (read noise): a negative, not a dead, denominator
         dkv[nx // 2, ny // 2] = bgv[nx // 2, ny // 2] + 25
+        # ... and a corner where the background frame reads exactly 0 while
+        # the dark frame does not: dark-subtracted it is not a dead pixel
+        bg_all = bgv
         for dark in (True, False):
             what = "bg_correct(%s counts, dark=%s, %dx%d)" % (dt, dark, nx,
                                                               ny)
+            bgv = bg_all.copy()
+            if dark and not dt.endswith("-wide"):
+                bgv[0, 0] = 0
             raw, bg, df = _mk(rawv), _mk(bgv, name="bg"), _mk(dkv,
                                                             name="dark")
             out = _t(what, bg_correct, raw, bg, df) if dark else \
